@@ -15,6 +15,7 @@ def illegal_tail(rng, s, model):
     tasks, stacks, tstate = s.task_info, s.task_stacks, s.task_tstate
     clk = s.task_clock + 5
     cands = []
+    dups = []
     for t in range(n):
         if tstate[t] != "Running":
             continue
@@ -49,6 +50,10 @@ def illegal_tail(rng, s, model):
                     cands.append((t, "r", tid, bid, "resume a dead body"))
                     if model == "nanos6" or info["par"]:
                         cands.append((t, "x", tid, bid, "run a dead body of a task that cannot resurrect"))
+            # a task is created once: its life starts with the one creation
+            tys = getattr(s, "task_types", {}).get(pr, [])
+            if tys:
+                dups.append((t, "c", tid, tys[0], "create a task whose id already exists"))
             if not info["bodies"]:
                 cands.append((t, "e", tid, 1 if info["par"] else 0, "end a body that never ran"))
                 cands.append((t, "p", tid, 1 if info["par"] else 0, "pause a body that never ran"))
@@ -84,6 +89,11 @@ def illegal_tail(rng, s, model):
         return None
     special = [c for c in cands if "not on top" in c[4]]
     (t, kind, tid, bid, why) = rng.choice(special) if special and rng.chance(2, 3) else rng.choice(cands)
+    if dups and rng.chance(1, 12):
+        (t, kind, tid, bid, why) = rng.choice(dups)
+    if kind == "c":
+        s.events.append((t, clk, M + "Tc", u32(tid) + u32(bid)))
+        return why
     payload = u32(tid) + u32(bid) if model == "nosv" else u32(tid)
     s.events.append((t, clk, M + "T" + kind, payload))
     return why
@@ -233,6 +243,6 @@ def run(chk):
         chk.sample({"model": model, "scenario": clean[0].describe(), "ovniemu_exit": real[0]["rc"]})
     chk.coverage["rule"] = ("for nOS-V and Nanos6: histories legal by construction (types, tasks, parallel tasks with several bodies, pause/resume, nesting over "
                             "paused bodies, thread pause/resume in between, ranks/app ids) must be accepted and show the running body's task/body id; the same "
-                            "histories cut at a random point and followed by ONE forbidden operation (16 kinds) must be rejected; plus mixed random histories "
+                            "histories cut at a random point and followed by ONE forbidden operation (17 kinds) must be rejected; plus mixed random histories "
                             "compared with the extracted Coq model (verdict and every PRV row)")
     emucheck.finish_corr(chk, corr)
